@@ -176,6 +176,28 @@ func dbSeqScenario(prop string, cfgs []dbCfg, steps []seqStep, eager bool, obs *
 							}
 						}
 					}
+					if p.End == "P" {
+						// Update whose closure panics after its writes; the caller recovers (a request handler, a worker
+						// pool): the transaction failed and must leave no trace
+						func() {
+							defer func() { _ = recover() }()
+							db.Update(func(tx *originium.Txn) error {
+								for _, o := range p.Ops {
+									switch o.Op {
+									case "S":
+										tx.Set(xKey(o.K), xVal(o.K, o.V))
+									case "D":
+										tx.Delete(xKey(o.K))
+									case "G":
+										tx.Get(xKey(o.K))
+									}
+								}
+								panic("the Update closure panicked")
+							})
+							fail("update-panic-swallowed", "Update returned normally although its closure panicked")
+						}()
+						break
+					}
 					if p.End == "E" {
 						// Update whose closure fails after its writes
 						e := fmt.Errorf("closure failed")
